@@ -251,6 +251,11 @@ class Parameter(Accessible):
         """return a clone of ourselfs with inherited properties"""
         res = type(self)(**kwds)
         res.name = self.name
+        datatype = properties.get('datatype')
+        if datatype is not None:
+            # the datatype properties following in <properties> (min, max, unit ...)
+            # must not be applied to the datatype object of the (base) class
+            properties = dict(properties, datatype=datatype.copy())
         res.init(properties)
         res.init(res.ownProperties)
         if 'datatype' in self.propertyValues:
